@@ -430,3 +430,71 @@ def leaves(body, op, expand_calls=True, max_nodes=200):
         else:
             out.append(o)
     return out
+
+
+def variant_edges(body, ty_pred, variant_index, place_pred=None):
+    """CFG edges on which a value of an enum type (ty_pred(type string) true) is known to be the
+    variant with index `variant_index`: the matching arm of a `switch discr(place)`, the `otherwise`
+    arm when every other variant is listed, and - through `matches!` / `if let` temporaries - the
+    true edge of a switch on a bool local all of whose `true` assignments are dominated by such an
+    edge."""
+    direct = []
+    for bi, blk in enumerate(body.blocks):
+        tt = blk["t"]
+        if tt["k"] != "switch" or tt["d"][0] not in ("copy", "move") or mir.is_noise(tt["x"]):
+            continue
+        ds = body.defs().get(tt["d"][1]["l"], [])
+        if len(ds) != 1 or ds[0][2] != "assign" or ds[0][3]["r"][0] != "discr":
+            continue
+        pl = ds[0][3]["r"][1]
+        ty = body.locals[pl["l"]]["ty"]
+        for pr in pl["p"]:
+            if pr[0] == "field" and len(pr) > 3:
+                ty = pr[3]
+        if not ty_pred(ty.lstrip("&").replace("mut ", "")):
+            continue
+        if place_pred is not None and not place_pred(pl):
+            continue
+        listed = [v for v, tb in tt["v"]]
+        for v, tb in tt["v"]:
+            if v == variant_index:
+                direct.append((bi, tb))
+        if variant_index not in listed and body.blocks[tt["o"]]["t"]["k"] != "unreachable":
+            direct.append((bi, tt["o"]))
+    edges = list(direct)
+    # bool temporaries
+    for bi, blk in enumerate(body.blocks):
+        tt = blk["t"]
+        if tt["k"] != "switch" or tt["d"][0] not in ("copy", "move") or tt["d"][1]["p"]:
+            continue
+        m = tt["d"][1]["l"]
+        if body.locals[m]["ty"] != "bool":
+            continue
+        srcs = {m}
+        for d in body.defs().get(m, []):
+            if d[2] == "assign" and d[3]["r"][0] == "use" and d[3]["r"][1][0] in ("copy", "move") and not d[3]["r"][1][1]["p"]:
+                srcs.add(d[3]["r"][1][1]["l"])
+        trues = []
+        ok = True
+        for src in srcs:
+            for d in body.defs().get(src, []):
+                if d[2] != "assign":
+                    ok = ok and (src == m and False or True)
+                    continue
+                r = d[3]["r"]
+                if r[0] == "use" and r[1][0] == "const":
+                    if r[1][1].get("val") == 1:
+                        trues.append(d[0])
+                elif r[0] == "use" and r[1][0] in ("copy", "move") and not r[1][1]["p"] and r[1][1]["l"] in srcs:
+                    pass
+                else:
+                    ok = False
+        if not ok or not trues:
+            continue
+        if all(any(body.edge_dominates(a, b2, tb) for a, b2 in direct) for tb in trues):
+            edges.append((bi, tt["o"]))
+    return edges
+
+
+def dominated_by_any(body, edges, site_bb):
+    return any(body.edge_dominates(a, b, site_bb) for a, b in edges)
